@@ -113,6 +113,15 @@ def cases(tier: str) -> List[Dict[str, Any]]:
                 if c:
                     out.append(c)
         if n <= 2:
+            # all timestamps at +09:00 / -05:00 (own date != UTC date), windows on the own dates
+            for tz in (540, -300):
+                specs_tz = D.specs_for(h, "a", tz=tz)
+                s2_tz = D.specs_for(D.SECOND[idx], "b", tz=tz)
+                for w in D.windows(D.event_dates([specs_tz or [], s2_tz or []]), "few"):
+                    c = D.make_case(h, idx, "fifo", w, tz=tz)
+                    if c:
+                        out.append(c)
+        if n <= 2:
             # country / language slice, single asset and two assets, chronological sheet order too
             for cc, lang in LANG_SLICE:
                 for second in (None, idx):
